@@ -1,0 +1,262 @@
+//go:build verif
+
+package verifhook
+
+import (
+	"bytes"
+	"runtime"
+	"sync"
+	"sync/atomic"
+)
+
+// PoisonByte is written over the whole capacity of a buffer when it is put back
+// into a pool while poisoning is switched on.
+const PoisonByte = 0xDB
+
+var (
+	poolPoison   atomic.Bool
+	poolEvents   atomic.Bool
+	poolYieldPPM atomic.Int64 // probability (parts per million) of a Gosched in Get/Put
+	yieldState   atomic.Uint64
+
+	PoolGets          atomic.Int64
+	PoolPuts          atomic.Int64
+	PoolReuses        atomic.Int64 // a buffer that had been Put before was handed out again
+	PoolCrossHandoffs atomic.Int64 // ... to another goroutine
+	PoolYields        atomic.Int64
+
+	poolMu    sync.Mutex
+	poolOwner = map[*bytes.Buffer]uint64{} // buffer -> goroutine that Put it last
+)
+
+// SetPoolPoison switches overwriting of recycled buffers on or off.
+func SetPoolPoison(on bool) { poolPoison.Store(on) }
+
+// SetPoolEvents switches reuse / hand-off accounting on or off.
+func SetPoolEvents(on bool) { poolEvents.Store(on) }
+
+// SetPoolYield makes Get/Put call runtime.Gosched with the given probability
+// (parts per million), from a deterministic counter-based stream.
+func SetPoolYield(ppm int64, seed uint64) {
+	yieldState.Store(seed | 1)
+	poolYieldPPM.Store(ppm)
+}
+
+func maybeYield() {
+	ppm := poolYieldPPM.Load()
+	if ppm <= 0 {
+		return
+	}
+	x := yieldState.Add(0x9E3779B97F4A7C15)
+	x ^= x >> 30
+	x *= 0xBF58476D1CE4E5B9
+	x ^= x >> 27
+	x *= 0x94D049BB133111EB
+	x ^= x >> 31
+	if int64(x%1000000) < ppm {
+		PoolYields.Add(1)
+		runtime.Gosched()
+	}
+}
+
+// PoolGet is called by BufferPool.Get before a buffer is handed out.
+func PoolGet() {
+	PoolGets.Add(1)
+	maybeYield()
+}
+
+// PoolPut is called by BufferPool.Put after the buffer has been reset and
+// before it goes back into the pool.
+func PoolPut(b *bytes.Buffer) {
+	PoolPuts.Add(1)
+	if poolPoison.Load() {
+		raw := b.Bytes()
+		raw = raw[:cap(raw)]
+		for i := range raw {
+			raw[i] = PoisonByte
+		}
+	}
+	if poolEvents.Load() {
+		g := goid()
+		poolMu.Lock()
+		if len(poolOwner) > 1<<16 {
+			poolOwner = map[*bytes.Buffer]uint64{}
+		}
+		owner, seen := poolOwner[b]
+		poolOwner[b] = g
+		poolMu.Unlock()
+		if seen {
+			// The buffer went through the pool and was handed out again.
+			PoolReuses.Add(1)
+			if owner != g {
+				PoolCrossHandoffs.Add(1)
+			}
+		}
+	}
+	maybeYield()
+}
+
+func goid() uint64 {
+	var buf [64]byte
+	n := runtime.Stack(buf[:], false)
+	// "goroutine 123 ["
+	var id uint64
+	for _, c := range buf[len("goroutine "):n] {
+		if c < '0' || c > '9' {
+			break
+		}
+		id = id*10 + uint64(c-'0')
+	}
+	return id
+}
+
+// ---- loader reuse ----------------------------------------------------------
+
+var (
+	LoaderGets   atomic.Int64
+	LoaderReuses atomic.Int64
+	LoaderDirty  atomic.Int64
+
+	loaderMu      sync.Mutex
+	loaderDirtyAt []string
+)
+
+// LoaderGot is called by the schema loader with the loader object taken from
+// its pool: reused tells whether the object has been used before, dirty lists
+// the fields that are not in their reset state (empty when clean).
+func LoaderGot(reused bool, dirty string) {
+	LoaderGets.Add(1)
+	if reused {
+		LoaderReuses.Add(1)
+	}
+	if dirty != "" {
+		LoaderDirty.Add(1)
+		loaderMu.Lock()
+		if len(loaderDirtyAt) < 16 {
+			loaderDirtyAt = append(loaderDirtyAt, dirty)
+		}
+		loaderMu.Unlock()
+	}
+}
+
+// LoaderDirtyReports returns the recorded descriptions of dirty loaders.
+func LoaderDirtyReports() []string {
+	loaderMu.Lock()
+	defer loaderMu.Unlock()
+	return append([]string(nil), loaderDirtyAt...)
+}
+
+// ---- scanner probes ---------------------------------------------------------
+
+// Scanner kinds for ScanStep.
+const (
+	KindSchema = iota
+	KindEnum
+	KindJSONDoc
+	KindNumber
+	nKinds
+)
+
+type stepKey struct {
+	kind  int
+	pc    uintptr
+	class uint8
+}
+
+var (
+	scanOn      atomic.Bool
+	ScanSteps   [nKinds]atomic.Int64
+	ScanOverrun atomic.Int64 // index beyond size+1 observed
+
+	scanMu    sync.Mutex
+	scanPairs = map[stepKey]int64{}
+	scanLast  [nKinds]struct {
+		index, size int
+	}
+)
+
+// SetScanProbes switches the scanner probes on or off.
+func SetScanProbes(on bool) { scanOn.Store(on) }
+
+// ScanOn tells the probes whether anybody listens.
+func ScanOn() bool { return scanOn.Load() }
+
+// ByteClass maps a byte to a small class number used for coverage counting.
+func ByteClass(c byte) uint8 {
+	switch {
+	case c == ' ' || c == '\t':
+		return 1
+	case c == '\n' || c == '\r':
+		return 2
+	case c >= '0' && c <= '9':
+		return 3
+	case c == '"':
+		return 4
+	case c == '\\':
+		return 5
+	case c == '{' || c == '}':
+		return 6
+	case c == '[' || c == ']':
+		return 7
+	case c == ':' || c == ',':
+		return 8
+	case c == '/' || c == '*' || c == '#':
+		return 9
+	case c == '-' || c == '+' || c == '.':
+		return 10
+	case c == '@' || c == '|':
+		return 11
+	case c >= 'a' && c <= 'z' || c >= 'A' && c <= 'Z' || c == '_':
+		return 12
+	case c < 0x20 || c == 0x7f:
+		return 13
+	case c >= 0x80:
+		return 14
+	}
+	return 15
+}
+
+// ScanStep is called by the scanners before a step function consumes byte c at
+// position index (0-based) of a text of size bytes.
+func ScanStep(kind int, pc uintptr, c byte, index, size int) {
+	ScanSteps[kind].Add(1)
+	if index > size+1 || index < 0 {
+		ScanOverrun.Add(1)
+	}
+	k := stepKey{kind, pc, ByteClass(c)}
+	scanMu.Lock()
+	scanPairs[k]++
+	scanLast[kind].index, scanLast[kind].size = index, size
+	scanMu.Unlock()
+}
+
+// ScanPairs returns, per scanner kind, the (step function name, byte class)
+// pairs crossed so far with their counts.
+func ScanPairs() map[int]map[string]int64 {
+	scanMu.Lock()
+	defer scanMu.Unlock()
+	out := map[int]map[string]int64{}
+	for k, n := range scanPairs {
+		name := "?"
+		if f := runtime.FuncForPC(k.pc); f != nil {
+			name = f.Name()
+		}
+		m := out[k.kind]
+		if m == nil {
+			m = map[string]int64{}
+			out[k.kind] = m
+		}
+		m[name+"/"+string(rune('A'+k.class))] += n
+	}
+	return out
+}
+
+// ResetScan forgets collected probe data.
+func ResetScan() {
+	scanMu.Lock()
+	scanPairs = map[stepKey]int64{}
+	scanMu.Unlock()
+	for i := range ScanSteps {
+		ScanSteps[i].Store(0)
+	}
+}
